@@ -29,12 +29,12 @@ SCHED_PLANS = {
     "C01": SAFE + FIND,
     "C02": SAFE + FIND,
     "C03": [("base", 200, 4000), ("tail", 150, 3000), ("pop", 80, 1500), ("queue", 60, 1500), ("nq", 40, 800)],
-    "C05": [("base", 200, 4000), ("pop", 80, 1500), ("queue", 80, 1500), ("stop", 40, 1000), ("nq", 60, 1200)],
+    "C05": [("fault", 100, 2000), ("base", 200, 4000), ("pop", 80, 1500), ("queue", 80, 1500), ("stop", 40, 1000), ("nq", 60, 1200)],
     "C06": [("base", 250, 5000), ("pop", 100, 2000), ("queue", 80, 1500), ("stop", 40, 800)],
     "C11": SAFE,
     "C12": [("base", 250, 5000), ("pop", 60, 1000), ("queue", 60, 1000), ("stop", 40, 800), ("nq", 40, 800)],
     "C13": [("base", 250, 5000), ("tail", 150, 3000), ("pop", 60, 1000), ("stop", 60, 1500), ("manual", 40, 800)],
-    "C14": [("stop", 250, 5000), ("manual", 60, 1000), ("none", 60, 1000), ("base", 60, 1000)],
+    "C14": [("stop", 250, 5000), ("stop@free", 150, 3000), ("base@free", 50, 1000), ("manual", 60, 1000), ("none", 60, 1000), ("base", 60, 1000)],
     "C15": [("fault", 250, 5000), ("base", 40, 500)],
     "C16": SAFE + FIND,
     "C17": [("queue", 250, 5000), ("latequeue", 80, 1500), ("pop", 40, 800)],
